@@ -254,8 +254,9 @@ func ruleTeletextPageStart(p *Prog, l *Ledger, tier string) {
 
 // ---- E3c-R4 writers truncate (added after seeded change C07/2, round 4) ----------------------------------------
 // "Each writer renders a cue boundary as the latest representable instant not after it": in the
-// functions that format timestamps nothing rounds to nearest or up: no (time.Duration).Round, no
-// math.Round / math.Ceil / RoundToEven.
+// functions that format timestamps – and in everything else the writers reach (a boundary rounded
+// before it is handed to the formatter is rounded all the same) – nothing rounds to nearest or up:
+// no (time.Duration).Round, no math.Round / math.Ceil / RoundToEven.
 var formatterRoots = []string{"formatDuration", "formatDurationSRT", "formatDurationWebVTT", "formatDurationSSA", "formatDurationSTL", "formatDurationSTLBytes", "TTMLOutDuration.MarshalText"}
 
 func ruleWritersTruncate(p *Prog, l *Ledger, tier string) {
@@ -267,8 +268,19 @@ func ruleWritersTruncate(p *Prog, l *Ledger, tier string) {
 		}
 	}
 	n := 0
-	for _, fn := range p.Closure(roots) {
-		if fnPkg(fn) != p.LibSSA {
+	scope := p.Closure(roots)
+	seenFn := map[*ssa.Function]bool{}
+	for _, fn := range scope {
+		seenFn[fn] = true
+	}
+	for _, fn := range p.WriterClosure(l, rule) {
+		if !seenFn[fn] {
+			seenFn[fn] = true
+			scope = append(scope, fn)
+		}
+	}
+	for _, fn := range scope {
+		if fnPkg(fn) != p.LibSSA || FnName(fn) == "init" {
 			continue
 		}
 		n++
